@@ -6,7 +6,7 @@
 From Emmet Require Import lib.Base model.MarkupTokenizer model.MarkupParser model.MarkupConvert
      model.MarkupResolve model.OutStream model.FormatHtml model.FormatIndent model.MarkupExpand.
 From Emmet Require Import proofs.ParserSpine proofs.ParserGroups proofs.TokenizeRender proofs.NumberingProofs
-     proofs.ConvertProofs proofs.HtmlEvents proofs.ExpandTree.
+     proofs.ConvertProofs proofs.HtmlEvents proofs.ExpandJsx proofs.ExpandTree.
 Local Open Scope nat_scope.
 
 (* ================================================================ the parser returns the machine's tree *)
@@ -75,18 +75,18 @@ Qed.
 (* ================================================================ the tokens of a flat text *)
 Definition gs (ls : list (leaf * sop)) : gstmt := map (fun x => (GE (fst x), snd x)) ls.
 
-Theorem lay_gflat : forall xs pos, gflat false (gs (fst (lay pos xs))) (snd (lay pos xs)).
+Theorem lay_gflat jsx : forall xs pos, gflat jsx (gs (fst (lay pos xs))) (snd (lay pos xs)).
 Proof.
   induction xs as [|[n o] xs' IH]; intros pos; [apply gf_nil|].
   destruct xs' as [|y xs''].
-  - cbn [lay fst snd gs map]. apply gf_last. apply ut_elem. unfold name_leaf. eapply gblock_name. reflexivity.
+  - cbn [lay fst snd gs map]. apply gf_last. apply ut_elem. unfold name_leaf. eapply gblock_name_j. reflexivity.
   - change (lay pos ((n, o) :: y :: xs'')) with
       (let '(ls, ts) := lay (pos + length n + length (op_text o)) (y :: xs'') in
        ((name_leaf n pos, o) :: ls, name_tok n pos :: op_toks o (pos + length n) ++ ts)).
     specialize (IH (pos + length n + length (op_text o))).
     destruct (lay (pos + length n + length (op_text o)) (y :: xs'')) as [ls ts]. cbn [fst snd gs map] in *.
     change (name_tok n pos :: op_toks o (pos + length n) ++ ts) with ([name_tok n pos] ++ op_toks o (pos + length n) ++ ts).
-    apply gf_cons; [apply ut_elem; unfold name_leaf; eapply gblock_name; reflexivity|apply op_toks_tokens|discriminate|exact IH].
+    apply gf_cons; [apply ut_elem; unfold name_leaf; eapply gblock_name_j; reflexivity|apply op_toks_tokens|discriminate|exact IH].
 Qed.
 
 Lemma denoteG_gs : forall ls off d,
@@ -142,7 +142,7 @@ Proof.
   { eapply Forall_impl; [|exact Hfine]. intros n Hf. apply good_name_ok. unfold name_fine in Hf.
     apply andb_prop in Hf. destruct Hf as [Hf _]. apply andb_prop in Hf. apply Hf. }
   pose proof (toks_render xs 0 None Hok) as Htok. fold (tokenize (render xs)) in Htok.
-  destruct (parse_gflat false _ _ (lay_gflat xs 0)) as [Hp Hm].
+  destruct (parse_gflat (mc_jsx (xc_m x)) _ _ (lay_gflat (mc_jsx (xc_m x)) xs 0)) as [Hp Hm].
   rewrite denoteG_gs in Hm.
   destruct (lay_marks (name_fine x) xs 0 0 Hfine) as [Hplain Hden].
   assert (Hm' : preML 0 (closed (grun (gs (fst (lay 0 xs))) root0)) =
